@@ -60,6 +60,7 @@ int cmd_thr(const Args& a) {
       if (line.empty() || (cnt++ % stride) != skip) continue; JV s = jparse(line); ++nsched;
       std::string what = "\"case\":{\"sched\":" + line + ",\"progs\":" + jints(progs) + "}";
       guarded(os, what, 60, [&](std::ostream& o) {
+        Rng rp((uint64_t)argi(a, "seed", 1)); World w(rp);   // a FRESH world (same data): the shared container has not been used by anybody yet
         Scheduler sc; for (auto& v : s.a) sc.sched.push_back((int)v.i()); int nt = (int)progs.size(); sc.finished.assign(nt, false); sc.ran.assign(nt, 0); g_sched = &sc;
         std::vector<Out> res(nt); std::vector<std::thread> th;
         for (int t = 1; t <= nt; ++t) th.emplace_back([&, t] { t_tid = t; Clipper2Lib::verif::yield_fn = yield_cb; sc.wait_turn(t); res[t - 1] = run_program((int)progs[t - 1], w); Clipper2Lib::verif::yield_fn = nullptr; sc.finish(t); });
@@ -75,6 +76,7 @@ int cmd_thr(const Args& a) {
       // not forked: ThreadSanitizer stops analysing in a child forked from a process that already runs its background thread.
       // A TSan report halts this process with exit code 66; the driver turns that into a Crash event.
       std::ostream& o = os;
+      Rng rp((uint64_t)argi(a, "seed", 1)); World w(rp);     // a FRESH world per round (first use of the shared container happens concurrently)
       std::vector<long long> eq(nthreads, 1); std::vector<std::thread> th; std::atomic<int> go{0};
       for (int t = 0; t < nthreads; ++t) th.emplace_back([&, t] { while (!go.load()) std::this_thread::yield(); for (int i = 0; i < iters; ++i) { int p = 1 + (t + i + rd) % 6; if (!(run_program(p, w) == seq[p])) eq[t] = 0; } });
       go.store(1); for (auto& x : th) x.join();
